@@ -1164,6 +1164,18 @@ class SyncInterpreter(BaseInterpreter[TContext, TEvent]):
             if explicit_id
             else f"{self.id}:{key}:{uuid.uuid4()}"
         )
+        # ♻️ Reusing an explicit id replaces the earlier actor. It must be
+        #    stopped first: overwriting the registration alone left it running
+        #    and unreachable, so neither `stopChild` nor the parent's `stop()`
+        #    could ever stop it or its background thread.
+        previous = self._actors.pop(actor_id, None)
+        if previous is not None:
+            logger.warning(
+                "⚠️ Actor id '%s' is already in use; stopping the existing "
+                "actor before spawning its replacement.",
+                actor_id,
+            )
+            previous.stop()
         child = SyncInterpreter(actor_machine)
         child.parent = self
         child.id = actor_id
